@@ -204,15 +204,24 @@ class Joiner:
         self.stale_b = {p for p, a, b in self.phis if b != p}
         for p, a, b in self.phis:
             phi_ids.add(p)
-            J.iv[p] = D.join(A.ivof(a), B.ivof(b))
-        for s_ in self.stale_a & self.stale_b:
-            pass
+            J.iv[p] = D.join(A.tight_iv(a), B.tight_iv(b))
+        # generations: a phi that is (re)assigned by this join gets a new generation
+        ga, gb = A.gen, B.gen
+        g = dict(ga)
+        for s_, n in gb.items():
+            if g.get(s_, 0) < n:
+                g[s_] = n
+        for p, a, b in self.phis:
+            if a != p or b != p:
+                g[p] = max(ga.get(p, 0), gb.get(p, 0)) + 1
+        J.gen = g
         if self.widen is not None:
             old, thresholds = self.widen
             for s in list(J.iv):
                 o = old.iv.get(s)
                 if o is not None and o != J.iv[s]:
-                    J.iv[s] = D.widen(o, J.iv[s], thresholds)
+                    th = thresholds if thresholds is not None else list(J.st.range(s))
+                    J.iv[s] = D.widen(o, J.iv[s], th)
         # definitions identical on both sides survive
         for name in ("lin", "cmpd", "ovf", "notd", "absd", "discr", "when"):
             ca, cb, cj = getattr(A, name), getattr(B, name), getattr(J, name)
@@ -399,7 +408,7 @@ class Joiner:
             fj = f.rename(sx) if any(s in sx for s in f.t) else f
             if fj not in facts:
                 facts.append(fj)
-        return Delta(iv, facts[:24])
+        return Delta(iv, facts[:24], base.gen)
 
     def _delta0(self, X, extra, sx):
         J = self.J
@@ -422,7 +431,14 @@ class Joiner:
                 facts.append(fj)
         if len(iv) > 64:
             iv = dict(list(iv.items())[:64])
-        return Delta(iv, facts[:24])
+        facts = facts[:24]
+        gen = {}
+        for s in iv:
+            gen[s] = J.gen.get(s, 0)
+        for f in facts:
+            for s in f.t:
+                gen[s] = J.gen.get(s, 0)
+        return Delta(iv, facts, gen)
 
     def _join_delta(self, a, b):
         iv = {}
@@ -433,7 +449,11 @@ class Joiner:
                 if jv is None or j != jv:
                     iv[s] = j
         facts = [f for f in a.facts if f in b.facts]
-        return Delta(iv, facts)
+        gen = None
+        if a.gen is not None and b.gen is not None:
+            gen = dict(a.gen)
+            gen.update(b.gen)
+        return Delta(iv, facts, gen)
 
 
 def _merge_logs(a, b):
